@@ -112,6 +112,14 @@ Theorem C16_oracle_sound : forall c : case, wf_case c = true -> corr_b c = true 
 Proof. exact oracle_sound. Qed.
 Print Assumptions C16_oracle_sound.
 
+(** Persist/restore steps anywhere in a history of a tear-sheet generator or of the trading
+    summary generator do not change any later state of the model. *)
+Theorem C16_persist_invariant : forall ops g ops' s,
+  fold_left tsg_step ops g = tsg_run (some_of ops) g /\
+  sgen_run_p ops' s = sgen_run (some_of ops') s.
+Proof. intros. split; [apply tsg_persist_invariant|apply sgen_persist_invariant]. Qed.
+Print Assumptions C16_persist_invariant.
+
 (** Non-vacuity: three wins (one of them break-even), one loss, on two instruments. *)
 Definition q (n : Z) (d : positive) : Qc := Q2Qc (n # d).
 Definition c16_example : list pos :=
